@@ -46,11 +46,12 @@ func (s *Server) Logf(color opshell.Color, format string, v ...any) {
 
 // RLogf sends a colored message to the shell with the requetsor's IP address.
 func (s *Server) RLogf(color opshell.Color, r *http.Request, format string, v ...any) {
-	s.Logf(color, fmt.Sprintf(
+	s.Logf(
+		color,
 		"[%s] %s",
 		remoteHost(r),
 		fmt.Sprintf(format, v...),
-	))
+	)
 }
 
 // ErrorLogf sends a error message back.
@@ -60,11 +61,11 @@ func (s *Server) ErrorLogf(format string, v ...any) {
 
 // RErrorLogf sends a pink message to the shell with r's remote address.
 func (s *Server) RErrorLogf(r *http.Request, format string, v ...any) {
-	s.ErrorLogf(fmt.Sprintf(
+	s.ErrorLogf(
 		"[%s] %s",
 		remoteHost(r),
 		fmt.Sprintf(format, v...),
-	))
+	)
 }
 
 // remoteHost attempts to get just the host part of the remote address.  If
